@@ -70,6 +70,9 @@ func parseHTTPDateCompat(dateStr string) (t time.Time, err error) {
 func (r *Response) ExpiresHeader() (t time.Time, found bool, valid bool) {
 	expiresStr := r.Data.Header.Get("Expires")
 	if expiresStr == "" {
+		// Present but empty is an invalid date, i.e. "already expired"
+		// (RFC 9111 §5.3) — not the same as no Expires field at all.
+		_, found = r.Data.Header["Expires"]
 		return
 	}
 	found = true
